@@ -10,3 +10,9 @@ pub mod xutil;
 mod x_structure; // C01, C19
 mod x_render; // C02, C06, C08, C09
 mod x_total; // C04, C05
+mod x_userdata; // C10
+mod x_encoding; // C07, C13, C14, C15
+mod x_palette; // C11
+mod x_tilemap; // C08
+mod x_blend; // C03, C17
+mod x_misc; // C16, C18
